@@ -5,7 +5,7 @@ from .util import call
 
 ID = 'C02'
 LEAN_MODULE = 'KernProofs.C02'
-THEOREMS = []
+THEOREMS = ['KM.C02.C02_one_stage_per_line', 'KM.C02.C02_measure_index_ok', 'KM.C02.splitLinesAux_line', 'KM.C02.line_boundary_free', 'KM.C02.splitRow_renderLine', 'KM.C02.C02_reader_literal', 'KM.C02.C02_surplus_data', 'KM.C02.C02_surplus_operator', 'KM.C02.C02_surplus_comment', 'KM.C02.cellsLoop_error', 'KM.C02.C02_surplus_row_rejected', 'KM.C02.C02_row_error_propagates', 'KM.C02.C02_data_cell_node', 'KM.C02.C02_split_and_end', 'KM.rowStep_shape', 'KM.runRows_startsOk', 'KM.runRows_stageCount', 'KM.cellStep_frame', 'KM.cellStep_length', 'KM.addNode_length']
 FINGERPRINTS = ['importer.Importer', 'document.Node', 'document.MultistageTree', 'document.SignatureNodes', 'tokens.HeaderToken.export']
 RULE = ('(a) EVERY spine-operator layout with <= 2 initial spines, <= 4 live paths and <= 2 (quick) / 3 (thorough) operator rows, each column of each '
         'operator row being one of * *^ *v *-, filled with distinguishable data cells; (b) generated documents of the full grammar (quick 40 / '
